@@ -6,6 +6,7 @@
 #define GEMMI_CCP4_HPP_
 
 #include <cassert>
+#include <climits>   // for INT_MAX, INT_MIN
 #include <cmath>     // for ceil, fabs, floor, round
 #include <cstdint>   // for uint16_t, int32_t
 #include <cstdio>    // for FILE
@@ -411,6 +412,15 @@ void Ccp4<T>::setup(T default_value, MapSetup mode) {
   // get old metadata
   const std::array<int, 3> pos = axis_positions();
   std::array<int, 3> start = header_3i32(5);
+  // These header words come from the file and are used below for indexing.
+  const int old_size[3] = { grid.nu, grid.nv, grid.nw };
+  for (int i = 0; i < 3; ++i) {
+    if (mode != MapSetup::ReorderOnly && sampl[i] <= 0)
+      fail("Ccp4::setup(): non-positive cell sampling (MX, MY, MZ) in the header");
+    std::int64_t end_i = (std::int64_t) start[i] + old_size[i];
+    if (end_i > INT_MAX || end_i < INT_MIN)
+      fail("Ccp4::setup(): NXSTART+NX, NYSTART+NY or NZSTART+NZ is out of range");
+  }
   int end[3] = { start[0] + grid.nu, start[1] + grid.nv, start[2] + grid.nw };
   // set new metadata
   if (mode == MapSetup::ReorderOnly) {
